@@ -1329,7 +1329,175 @@ type c03Syn struct {
 
 var c03SynOld = []string{"x", "y", "z"}
 
+// directed scenarios: several candidates that once had the same name, so that the later sieves
+// (namespace, prefix/suffix coarse and strict, identical names) decide
+func c03GenSynDirected(rng *Rng) c03Syn {
+	var s c03Syn
+	pick := func(l []string) string { return l[rng.Intn(len(l))] }
+	cnt := 0
+	uniq := func(base string) string { cnt++; return fmt.Sprintf("%s%d", base, cnt) }
+	nsLine := func(ns string) string {
+		if ns == "" {
+			return ""
+		}
+		return "  namespace: " + ns + "\n"
+	}
+	affixLists := func(pool [][]string) string { return strings.Join(pool[rng.Intn(len(pool))], ",") }
+	pfxPool := [][]string{{}, {}, {"p-"}, {"q-"}, {"p-", "q-"}, {"q-", "p-"}, {"p-", "p-"}, {"q-", "p-", "q-"}}
+	sfxPool := [][]string{{}, {}, {}, {"-s"}, {"-t"}, {"-s", "-t"}, {"-t", "-s"}}
+	hist := func(r *c03SynRes, names []string, kind string, nss []string) {
+		var ns, ks []string
+		for i := range names {
+			ns = append(ns, nss[i%len(nss)])
+			ks = append(ks, kind)
+		}
+		r.HasHistory = true
+		r.PrevNames, r.PrevNss, r.PrevKinds = strings.Join(names, ","), strings.Join(ns, ","), strings.Join(ks, ",")
+	}
+	ctx := func(r *c03SynRes) {
+		r.Prefixes = affixLists(pfxPool)
+		r.Suffixes = affixLists(sfxPool)
+	}
+	effNs := func(ns string) string {
+		if ns == "" {
+			return "default"
+		}
+		return ns
+	}
+	if rng.Chance(55) {
+		// A: ConfigMaps / Secrets that were all called "x" once
+		home := pick([]string{"", "n1", "n2"})
+		clusterReferrer := rng.Chance(30)
+		n := 2 + rng.Intn(2)
+		usedCur := map[string]bool{}
+		for i := 0; i < n; i++ {
+			var r c03SynRes
+			ns := home
+			if clusterReferrer || rng.Chance(15) {
+				ns = pick([]string{"", "n1", "n2"})
+			}
+			kind := "ConfigMap"
+			if rng.Chance(15) {
+				kind = "Secret"
+			}
+			cur := uniq("cm")
+			if rng.Chance(25) {
+				cur = pick([]string{"x", "y", "same"})
+			}
+			if usedCur[kind+"/"+cur+"/"+effNs(ns)] {
+				cur = uniq("cm")
+			}
+			usedCur[kind+"/"+cur+"/"+effNs(ns)] = true
+			r.Doc = "apiVersion: v1\nkind: " + kind + "\nmetadata:\n  name: " + cur + "\n" + nsLine(ns)
+			if rng.Chance(88) {
+				names := []string{"x"}
+				if rng.Chance(40) {
+					names = append(names, pick([]string{"p-x", "y", "x"}))
+				}
+				prevNs := effNs(ns)
+				if rng.Chance(20) {
+					prevNs = pick([]string{"default", "n1", "n2"})
+				}
+				hist(&r, names, kind, []string{prevNs})
+			}
+			ctx(&r)
+			s.Res = append(s.Res, r)
+		}
+		var r c03SynRes
+		if clusterReferrer {
+			r.Doc = "apiVersion: rbac.authorization.k8s.io/v1\nkind: ClusterRole\nmetadata:\n  name: " + uniq("cr") +
+				"\nrules:\n- resources: [configmaps, secrets]\n  resourceNames: [x, y, same, ext]\n"
+			hist(&r, []string{"cr"}, "ClusterRole", []string{"_non_namespaceable_"})
+		} else {
+			r.Doc = "apiVersion: apps/v1\nkind: Deployment\nmetadata:\n  name: " + uniq("dep") + "\n" + nsLine(home) +
+				"spec:\n  template:\n    spec:\n      containers:\n      - name: c\n        envFrom:\n        - configMapRef:\n            name: x\n" +
+				"        - secretRef:\n            name: x\n        - configMapRef:\n            name: " + pick([]string{"y", "same", "x"}) +
+				"\n      volumes:\n      - configMap:\n          name: x\n"
+			hist(&r, []string{"dep"}, "Deployment", []string{effNs(home)})
+		}
+		ctx(&r)
+		s.Res = append(s.Res, r)
+		return s
+	}
+	// B: a RoleBinding, Roles / ClusterRoles once called "x", ServiceAccounts once called "y"
+	nss := []string{"", "n1", "n2"}
+	a := pick(nss)
+	b := pick([]string{"default", "n1", "n2", "n3"})
+	nRoles := 1 + rng.Intn(2)
+	for i := 0; i < nRoles; i++ {
+		var r c03SynRes
+		ns := pick([]string{a, b, pick(nss)})
+		if ns == "default" && rng.Bool() {
+			ns = ""
+		}
+		if ns == "n3" {
+			ns = "n2"
+		}
+		r.Doc = "apiVersion: rbac.authorization.k8s.io/v1\nkind: Role\nmetadata:\n  name: " + uniq("role") + "\n" + nsLine(ns)
+		hist(&r, []string{"x"}, "Role", []string{effNs(ns)})
+		ctx(&r)
+		s.Res = append(s.Res, r)
+	}
+	if rng.Chance(50) {
+		var r c03SynRes
+		r.Doc = "apiVersion: rbac.authorization.k8s.io/v1\nkind: ClusterRole\nmetadata:\n  name: " + uniq("crole") + "\n"
+		hist(&r, []string{"x"}, "ClusterRole", []string{"_non_namespaceable_"})
+		ctx(&r)
+		s.Res = append(s.Res, r)
+	}
+	nSA := 1 + rng.Intn(3)
+	for i := 0; i < nSA; i++ {
+		var r c03SynRes
+		ns := pick([]string{a, b, pick(nss)})
+		if ns == "n3" {
+			ns = "n1"
+		}
+		raw := ns
+		if raw == "default" && rng.Bool() {
+			raw = ""
+		}
+		r.Doc = "apiVersion: v1\nkind: ServiceAccount\nmetadata:\n  name: " + uniq("sa") + "\n" + nsLine(raw)
+		prevNs := effNs(raw)
+		if rng.Chance(35) {
+			prevNs = pick([]string{"default", "n1", "n2"})
+		}
+		hist(&r, []string{"y"}, "ServiceAccount", []string{prevNs})
+		ctx(&r)
+		s.Res = append(s.Res, r)
+	}
+	if rng.Chance(40) {
+		var r c03SynRes
+		ns := pick([]string{a, b})
+		if ns == "n3" || ns == "default" {
+			ns = ""
+		}
+		r.Doc = "apiVersion: v1\nkind: ConfigMap\nmetadata:\n  name: " + uniq("cm") + "\n" + nsLine(ns)
+		hist(&r, []string{pick([]string{"x", "y"})}, "ConfigMap", []string{effNs(ns)})
+		s.Res = append(s.Res, r)
+	}
+	var r c03SynRes
+	subj := "- kind: ServiceAccount\n  name: y\n"
+	if rng.Chance(85) {
+		subj += "  namespace: " + b + "\n"
+	}
+	if rng.Chance(40) {
+		subj += "- kind: ServiceAccount\n  name: y\n  namespace: " + pick([]string{"default", "n1", "n2"}) + "\n"
+	}
+	if rng.Chance(25) {
+		subj += "- kind: User\n  name: x\n"
+	}
+	r.Doc = "apiVersion: rbac.authorization.k8s.io/v1\nkind: RoleBinding\nmetadata:\n  name: " + uniq("rb") + "\n" + nsLine(a) +
+		"roleRef:\n  apiGroup: rbac.authorization.k8s.io\n  kind: " + pick([]string{"Role", "Role", "ClusterRole"}) + "\n  name: x\nsubjects:\n" + subj
+	hist(&r, []string{"rb"}, "RoleBinding", []string{effNs(a)})
+	ctx(&r)
+	s.Res = append(s.Res, r)
+	return s
+}
+
 func c03GenSyn(rng *Rng) c03Syn {
+	if rng.Chance(45) {
+		return c03GenSynDirected(rng)
+	}
 	var s c03Syn
 	nsPool := []string{"", "default", "n1", "n2"}
 	pick := func(l []string) string { return l[rng.Intn(len(l))] }
